@@ -97,22 +97,29 @@ def build_lib(extra_flags=()):
     return d
 
 
-def build_harness(name, kind, libdir, extra_wraps=(), lib_objs=None, defs=()):
+def build_harness(name, kind, libdir, extra_wraps=(), lib_objs=None, defs=(), extra_srcs=(), link_flags=(), variant=""):
     """kind: 'raw' (pthreads on one data structure) or 'rt' (whole fiber runtime)"""
     repo = repo_dir()
     src = os.path.join(HARNESS, name + ".c")
     hdrs = [os.path.join(HARNESS, f) for f in os.listdir(HARNESS) if f.endswith(".h")]
-    key = _hash_files([src] + hdrs, "v2" + kind + " ".join(extra_wraps) + " ".join(defs))
-    exe = os.path.join(libdir, "%s-%s" % (name, key))
+    xs = [os.path.join(repo, rel) for rel, _ in extra_srcs]
+    key = _hash_files([src] + hdrs + xs, "v2" + kind + " ".join(extra_wraps) + " ".join(defs) + repr(extra_srcs) + " ".join(link_flags))
+    exe = os.path.join(libdir, "%s%s-%s" % (name, variant, key))
     if os.path.exists(exe):
         return exe
     obj = exe + ".o"
     _run([CC] + LIB_FLAGS + list(defs) + ["-I", ENGINE, "-I", HARNESS, "-I", os.path.join(repo, "include"), "-c", src, "-o", obj])
+    xobjs = []
+    for i, (rel, flags) in enumerate(extra_srcs):
+        # a source of the repository compiled specially for this harness (e.g. fiber_context.c per stack strategy)
+        xo = "%s.x%d.o" % (exe, i)
+        _run([CC, "-O2", "-g", "-std=gnu11", "-DNDEBUG", "-fno-omit-frame-pointer", "-I", os.path.join(repo, "include")] + list(flags) + ["-c", os.path.join(repo, rel), "-o", xo])
+        xobjs.append(xo)
     eng = [os.path.join(libdir, s[:-2] + ".o") for s in ENGINE_SRCS]
     if kind == "raw":
-        objs = [os.path.join(libdir, o) for o in (lib_objs or ["hazard_pointer.o", "work_stealing_deque.o", "work_queue.o"])]
+        objs = [os.path.join(libdir, o) for o in (lib_objs if lib_objs is not None else ["hazard_pointer.o", "work_stealing_deque.o", "work_queue.o"])]
         wraps = list(extra_wraps)
-        link = ["gcc", "-no-pie", "-o", exe + ".tmp", obj] + objs + eng
+        link = ["gcc", "-no-pie"] + list(link_flags) + ["-o", exe + ".tmp", obj] + xobjs + objs + eng
     else:
         objs = [os.path.join(libdir, s[:-2] + ".o") for s in LIB_SRCS] + [os.path.join(libdir, "fmc_wrap.o")]
         wraps = WRAPS + list(extra_wraps)
